@@ -182,8 +182,19 @@ fn db2_exact(d: &mut Draw) -> Outcome {
 }
 
 fn m4_exact<S: Sc>(d: &mut Draw) -> Outcome {
-    let projective = d.chance(1, 3);
-    let (s, t) = if projective { (mk_m4(&g_lin::<S>(d, 4)), mk_m4(&g_lin::<S>(d, 4))) } else { (g_affine4::<S>(d), g_affine4::<S>(d)) };
+    let kind = d.int(0, 5);
+    let projective = kind <= 2;
+    // kind 2: an affine matrix times a scalar k (bottom row exactly (0,0,0,k)): still the same map on points after the
+    // homogeneous divide, a different one on vectors, so it is handled like a projective matrix
+    let scaled = kind == 2;
+    let (s, t) = if scaled {
+        let (ks, kt) = (S::gen_nz(d), S::gen_nz(d));
+        (g_affine4::<S>(d) * ks, g_affine4::<S>(d) * kt)
+    } else if projective {
+        (mk_m4(&g_lin::<S>(d, 4)), mk_m4(&g_lin::<S>(d, 4)))
+    } else {
+        (g_affine4::<S>(d), g_affine4::<S>(d))
+    };
     let (p, v) = (gp3::<S>(d), gv3::<S>(d));
     d.note("s", &s);
     d.note("t", &t);
@@ -191,17 +202,34 @@ fn m4_exact<S: Sc>(d: &mut Draw) -> Outcome {
     let det = t.rm().det();
     vcore::tryo!(laws::<S, Point3<S>, Matrix4<S>>(&s, &t, p, v, !projective, det != S::zero(), "Matrix4"));
     let nt = s.rm().block(3).all_nonzero() && t.rm().block(3).all_nonzero();
-    pass(if det == S::zero() { "singular" } else if projective { "projective" } else if nt { "affine-generic" } else { "affine-sparse" }, nt)
+    if scaled {
+        // the points clause in closed form: (k [A d; 0 1]) p = A p + d
+        let a = t.rm();
+        let kk = a.e[3][3];
+        let pa = [p.x, p.y, p.z];
+        let want: Vec<S> = (0..3).map(|r| (a.e[0][r] * pa[0] + a.e[1][r] * pa[1] + a.e[2][r] * pa[2] + a.e[3][r]) / kk).collect();
+        let got = t.transform_point(p);
+        ensure_eq!(vec![got.x, got.y, got.z], want, "scaled-affine-point", "(k [A d; 0 1]) applied to a point is A p + d");
+    }
+    pass(if det == S::zero() { "singular" } else if scaled { "affine-times-scalar" } else if projective { "projective" } else if nt { "affine-generic" } else { "affine-sparse" }, nt)
 }
 
 fn m3_exact<S: Sc>(d: &mut Draw) -> Outcome {
     // as a 2-D affine transform
-    let (s, t) = (g_affine3::<S>(d), g_affine3::<S>(d));
+    let scaled = d.chance(1, 4);
+    let (s, t) = if scaled { (g_affine3::<S>(d) * S::gen_nz(d), g_affine3::<S>(d) * S::gen_nz(d)) } else { (g_affine3::<S>(d), g_affine3::<S>(d)) };
     let (p, v) = (gp2::<S>(d), gv2::<S>(d));
     d.note("2-D s", &s);
     d.note("2-D t", &t);
     let det = t.rm().det();
-    vcore::tryo!(laws::<S, Point2<S>, Matrix3<S>>(&s, &t, p, v, true, det != S::zero(), "Matrix3 as Transform<Point2>"));
+    vcore::tryo!(laws::<S, Point2<S>, Matrix3<S>>(&s, &t, p, v, !scaled, det != S::zero(), "Matrix3 as Transform<Point2>"));
+    if scaled && det != S::zero() {
+        let a = t.rm();
+        let kk = a.e[2][2];
+        let want: Vec<S> = (0..2).map(|r| (a.e[0][r] * p.x + a.e[1][r] * p.y + a.e[2][r]) / kk).collect();
+        let got = t.transform_point(p);
+        ensure_eq!(vec![got.x, got.y], want, "scaled-affine-point-2d", "(k [A d; 0 1]) applied to a 2-D point is A p + d");
+    }
     // as a 3-D linear transform
     let (s3, t3) = (mk_m3(&g_lin::<S>(d, 3)), mk_m3(&g_lin::<S>(d, 3)));
     let (p3, w3) = (gp3::<S>(d), gv3::<S>(d));
@@ -350,8 +378,8 @@ pub fn property() -> Property {
     add!("decomposed_basis3-Q", "Q", db3_exact::<Q>, 3000, 200_000, 96, RQ, RD);
     add!("decomposed_basis3-Fp", "Fp", db3_exact::<Fp>, 3000, 200_000, 128, RQ, RD);
     add!("decomposed_basis2-Q", "Q", db2_exact, 3000, 200_000, 64, RQ, "scales not in {0,1}, displacement with all components non-zero");
-    add!("matrix4-Q", "Q", m4_exact::<Q>, 3000, 200_000, 192, &[("affine-generic", 100), ("projective", 100), ("singular", 50)], "linear parts with all entries non-zero");
-    add!("matrix4-Fp", "Fp", m4_exact::<Fp>, 3000, 200_000, 192, &[("affine-generic", 100), ("projective", 100), ("singular", 50)], "linear parts with all entries non-zero");
+    add!("matrix4-Q", "Q", m4_exact::<Q>, 3000, 200_000, 192, &[("affine-generic", 100), ("projective", 100), ("affine-times-scalar", 80), ("singular", 50)], "linear parts with all entries non-zero");
+    add!("matrix4-Fp", "Fp", m4_exact::<Fp>, 3000, 200_000, 192, &[("affine-generic", 100), ("projective", 100), ("affine-times-scalar", 80), ("singular", 50)], "linear parts with all entries non-zero");
     add!("matrix3-Q", "Q", m3_exact::<Q>, 3000, 200_000, 192, &[("generic", 100), ("singular", 50)], "linear parts with all entries non-zero");
     add!("matrix3-Fp", "Fp", m3_exact::<Fp>, 3000, 200_000, 192, &[("generic", 100), ("singular", 50)], "linear parts with all entries non-zero");
     add!("scale_threshold-f64", "f64", scale_threshold_f64, 10000, 500_000, 64,
